@@ -52,6 +52,8 @@ def mkEnv (tbls : List Tbl) (wks : List (Nat × Nat)) : Env :=
 def field (pre : String) (toks : List String) : Option String :=
   (toks.find? (fun t => t.startsWith pre)).map (fun t => (t.drop pre.length).toString)
 
+def brIf (p : Bool) (b : String) : List String := if p then [b] else []
+
 def renderList (l : List String) : String := if l.isEmpty then "-" else ",".intercalate l
 
 def renderQueue (q : List Item) : String :=
@@ -118,8 +120,6 @@ def parseOp (ts : List String) : Option Op :=
     let cpok ← (if cp == "cpok" then some true else if cp == "cperr" then some false else none)
     pure (.done (← id.toNat?) (← parseRes r) cpok)
   | _ => none
-
-def brIf (p : Bool) (b : String) : List String := if p then [b] else []
 
 /-- Branch coverage of the model for one op (looked up on the states before/after). -/
 def opBranches (E : Env) (op : Op) (s : St) : List String :=
@@ -195,6 +195,64 @@ def noteBranches (c : Ctx) (op : Op) (s s' : St) : Ctx :=
   { c with starts := c.starts + nStarts,
            interesting := c.interesting + (if s'.spinning || nStarts ≥ 2 then 1 else 0) }
 
+/-! ### coordinator lines: `coord <new|up|del> id sc offms from= to= ls= lc= every= cron= [wk= tbl=] => status fwd=… …` -/
+
+structure Desug where
+  opT : List String
+  obs : List String
+  skip : Bool := false            -- nothing reached the scheduler (or the line is not executable in this build)
+  mism : Option String := none    -- the coordinator model forwards something else than the real coordinator did
+  brs : List String := []
+
+def optTime (s : String) : Option (Option Int) :=
+  if s == "z" || s == "" then some none else s.toInt?.map some
+
+def renderFwd (offms : Int) : Fwd → String
+  | .sched last => s!"sched:{offms}:{last}"
+  | .rel => "rel"
+  | .err => "none"
+  | .unknown => "unknown"
+
+def desugar (opT obs : List String) : Option Desug :=
+  match opT with
+  | "coord" :: kind :: id :: sc :: offms :: rest => do
+    let status := obs.head?.getD ""
+    if status == "unsupported" then return { opT := opT, obs := obs, skip := true }
+    if status == "blocked" || status == "dead" || status == "panic" then return { opT := ["rel", id], obs := obs }
+    let offN ← offms.toInt?
+    let k ← (match kind with | "new" => some CKind.created | "up" => some CKind.updated | "del" => some CKind.deleted | _ => none)
+    let get := fun (key : String) => (field (key ++ "=") rest).getD ""
+    let ls ← optTime (get "ls")
+    let lc ← optTime (get "lc")
+    let ev := get "every"
+    let every : Option Int := if ev == "-" || ev == "" then none else ev.toInt?
+    let hasS := !(ev == "-" || ev == "") || !(get "cron" == "-" || get "cron" == "")
+    let mk := fun (st : String) => ({ hasSchedule := hasS, every := every, active := st != "i", ls := ls, lc := lc } : CTask)
+    let frm := mk (get "from")
+    let to := mk (get "to")
+    let expect := coordFwd k frm to
+    let fwdTok ← field "fwd=" obs
+    let obsRest := (obs.drop 1).filter (fun t => !t.startsWith "fwd=")
+    let mism := if renderFwd offN expect == fwdTok then none
+                else some s!"coordinator forwards: model {renderFwd offN expect} observed {fwdTok}"
+    let brs := [match k with | .created => "coord-created" | .updated => "coord-updated" | .deleted => "coord-deleted"] ++
+      (match expect with
+       | .sched last => brIf (k == .updated && !to.active) "coord-update-of-inactive-task-schedules-it" ++
+                        brIf (every.isSome && (match pickTs to with | some (some ts) => ts != last | _ => false)) "coord-every-aligns-last-scheduled" ++
+                        brIf (match to.ls, to.lc with | some a, some b => a < b | _, _ => false) "coord-picks-latest-completed"
+       | .rel => brIf (k == .updated) "coord-update-releases-deactivated-task"
+       | .err => ["coord-no-schedule-error"]
+       | .unknown => [])
+    match fwdTok.splitOn ":" with
+    | ["sched", o, l] =>
+      let oN ← o.toInt?
+      pure { opT := ["sched", id, sc, toString (oN.tdiv 1000), l, s!"frac={oN.tmod 1000}"] ++ rest.filter (fun t => t.startsWith "wk=" || t.startsWith "tbl="),
+             obs := status :: obsRest, mism := mism, brs := brs }
+    | ["rel"] => pure { opT := ["rel", id], obs := status :: obsRest, mism := mism, brs := brs }
+    | ["none"] => pure { opT := opT, obs := obs, skip := true, mism := mism, brs := brs }
+    | _ => pure { opT := opT, obs := obs, skip := true, mism := some s!"coordinator forwarded {fwdTok}", brs := brs }
+  | _ => some { opT := opT, obs := obs }
+
 /-- The comparator case: `less wa ia wb ib => 0|1` lines from the real `Item.Less`. -/
 def judgeLess (lines : Array String) : Verdict := Id.run do
   for l in lines do
@@ -217,7 +275,11 @@ def judge (_id : String) (lines : Array String) : Verdict := Id.run do
   let mut tbls : List Tbl := []
   let mut wks : List (Nat × Nat) := []
   for l in lines do
-    let (opT, obs0) := splitObs (tokens l)
+    let (opTr, obsr) := splitObs (tokens l)
+    let some dz := desugar opTr obsr | return .badop l
+    if dz.skip then continue
+    let opT := dz.opT
+    let obs0 := dz.obs
     -- ops after the scheduler stopped answering carry no oracle tokens; pass 1 stops at the `blocked` op before them
     if obs0.head? == some "dead" then continue
     match opT with
@@ -240,8 +302,12 @@ def judge (_id : String) (lines : Array String) : Verdict := Id.run do
   let mut fracs : List (Nat × (Int × Int)) := []     -- id ↦ (whole-second offset, sub-second part in ms) of its scheduling
   let mut knownSub : Option String := none
   for l in lines do
-    let (opT, obs) := splitObs (tokens l)
-    if opT.head? == some "cfg" then continue
+    let (opTr, obsr) := splitObs (tokens l)
+    if opTr.head? == some "cfg" then continue
+    let some dz := desugar opTr obsr | return .badop l
+    if dz.skip then continue
+    let opT := dz.opT
+    let obs := dz.obs
     let some op := parseOp opT | return .badop l
     let status := obs.head?.getD ""
     if status == "badcron" || status == "badline" || status == "" then return .badop l
@@ -279,8 +345,16 @@ def judge (_id : String) (lines : Array String) : Verdict := Id.run do
   -- PASS 2: observed = model, op by op
   let mut c : Ctx := { env := env, tbls := tbls }
   for l in lines do
-    let (opT, obs) := splitObs (tokens l)
-    if opT.head? == some "cfg" then continue
+    let (opTr, obsr) := splitObs (tokens l)
+    if opTr.head? == some "cfg" then continue
+    let some dz := desugar opTr obsr | return .badop l
+    match dz.mism with
+    | some d => return .mismatch s!"`{" ".intercalate opTr}`: {d}"
+    | none => pure ()
+    c := dz.brs.foldl addBr c
+    if dz.skip then continue
+    let opT := dz.opT
+    let obs := dz.obs
     let some op := parseOp opT | return .badop l
     let status := obs.head?.getD ""
     let some evTok := field "ev=" obs | return .badop l
